@@ -171,6 +171,22 @@ def gen_cases(ctx):
                 view[...] = pred
                 pred = view
         cases.append((rng.choice(kinds), ref, pred, ri, pi))
+    # a reference instance against the UNION of many prediction labels (a merged prediction): long label lists (20-60 entries, some
+    # absent from the array), many distinct labels in the arrays, far-away label values, integer-valued floating-point label maps
+    for _ in range(ctx.scale(30, 300)):
+        shape = rng.choice([(8, 8), (30, 30), (10, 10, 10), (4, 16), (64,)])
+        n = int(np.prod(shape))
+        L = rng.randint(40, 70)
+        dt = rng.choice(["uint8", "int16", "int32", "int64", "uint32", "float32", "float64"])
+        far = 1_000_000 if dt in ("int32", "int64", "uint32", "float32", "float64") and rng.random() < 0.6 else None
+        pool = list(range(1, L + 1)) + ([far] if far else [])
+        pred = np.array([rng.choice([0] + pool) for _ in range(n)], dtype=dt).reshape(shape)
+        ref = np.array([rng.choice([0, 0, 1, 2, 3]) for _ in range(n)], dtype=dt).reshape(shape)
+        pi = rng.sample(range(1, L + 20), rng.randint(20, 60))
+        if far and rng.random() < 0.7:
+            pi.append(far)
+        rng.shuffle(pi)
+        cases.append((rng.choice(KINDS[:3]), ref, pred, int(rng.choice([1, 2, 3])), [int(x) for x in pi]))
     return cases
 
 
@@ -191,6 +207,36 @@ def check_rnd(ctx):
     ctx.notes["rnd_checked"] = len(ins)
     ctx.notes["rnd_mismatch"] = bad
     return [(1, i, o) for i, o in zip(ins[:40], outs[:40])]
+
+
+def evaluator_path_problems(ref, pred):
+    """matched instances through the evaluator: per-instance lists and global binary values vs the set definitions on the whole input"""
+    from harness import impl as H
+    common.serial_pool()
+    labs = [int(l) for l in np.unique(ref) if l and (pred == l).any()]
+    cfg = {"input": "matched", "imetrics": ["DSC", "IOU", "RVD"], "gmetrics": ["DSC", "IOU"]}
+    out = H.evaluate(H.make_evaluator(cfg), pred.copy(), ref.copy())
+    if isinstance(out, tuple):
+        return ["evaluation of matched instances raised: " + str(out[1:])], None
+    r = H.canon_result(out["ungrouped"][0])
+    want = {"DSC": [], "IOU": [], "RVD": []}
+    for l in labs:
+        rm, pm = ref == l, pred == l
+        ni, nr_, np_ = int((rm & pm).sum()), int(rm.sum()), int(pm.sum())
+        want["DSC"].append(2 * ni / (nr_ + np_)); want["IOU"].append(ni / (nr_ + np_ - ni)); want["RVD"].append((np_ - nr_) / nr_)
+    bad = []
+    for m in ("DSC", "IOU", "RVD"):
+        got = sorted(r["metrics"].get(m, {}).get("all", []))
+        if len(got) != len(want[m]) or any(abs(a - b) > 1e-12 for a, b in zip(got, sorted(want[m]))):
+            bad.append(f"{m} per instance {got} but the set definitions on the whole input give {sorted(want[m])}")
+    rb, pb = ref != 0, pred != 0
+    if rb.any() and pb.any():
+        ni, nr_, np_ = int((rb & pb).sum()), int(rb.sum()), int(pb.sum())
+        for k, v in (("dsc", 2 * ni / (nr_ + np_)), ("iou", ni / (nr_ + np_ - ni))):
+            g = (r.get("globals") or {}).get(k)
+            if g is None or abs(g - v) > 1e-12:
+                bad.append(f"global_bin_{k} = {g} but the foregrounds give {v}")
+    return bad, r
 
 
 def run(ctx):
@@ -264,6 +310,29 @@ def run(ctx):
                     ctx.violation(f"{kind} on a {shape} volume differs from its set-theoretic definition: {im} vs {float(want[kind])!r}",
                                   {"kind": kind, "large_shape": list(shape), "box": [lo, hi, sh], "pred_label": pl, "ri": ri, "pi": pi,
                                    "implementation": im, "definition": float(want[kind])})
+    # through the evaluator (matched instances): the per-instance lists and the global binary values are the set definitions on the
+    # WHOLE input -- instances touching the first / last index of an axis, singleton axes (whatever is cropped must lose no voxel)
+    from harness import impl as H
+    for _ in range(ctx.scale(40, 400)):
+        nd = rng.choice([2, 2, 3])
+        shape = [rng.randint(3, 9) for _k in range(nd)]
+        if rng.random() < 0.2:
+            shape[rng.randrange(nd)] = 1
+        ref = np.zeros(shape, np.uint8); pred = np.zeros(shape, np.uint8)
+        for lab in range(1, rng.randint(1, 3) + 1):
+            lo = [rng.choice([0, rng.randrange(s_), max(0, s_ - 2)]) for s_ in shape]
+            hi = [rng.choice([s_, min(s_, l + rng.randint(1, 3))]) for s_, l in zip(shape, lo)]
+            box = tuple(slice(l, max(l + 1, h)) for l, h in zip(lo, hi))
+            ref[box] = np.where(ref[box] == 0, lab, ref[box])
+            lo2 = [min(s_ - 1, max(0, l + rng.choice([0, 0, 1, -1]))) for s_, l in zip(shape, lo)]
+            box2 = tuple(slice(l, max(l + 1, h)) for l, h in zip(lo2, hi))
+            pred[box2] = np.where(pred[box2] == 0, lab, pred[box2])
+        labs = [l for l in range(1, 4) if (ref == l).any() and (pred == l).any()]
+        ctx.count({"evaluator_path": True, "ref": ref.tolist(), "pred": pred.tolist()}, bool(labs))
+        ctx.bump("evaluator path/" + ("singleton axis" if 1 in shape else "faces"))
+        bad, r = evaluator_path_problems(ref, pred)
+        if bad:
+            ctx.violation("evaluator: " + "; ".join(bad[:3]), {"evaluator_path": True, "ref": ref, "pred": pred, "observed": r})
     step = max(1, len(ins) // 60)
     triples += [(601, i, o) for i, o in list(zip(ins, outs))[::step]][:80]
     n, bad = coq_crosscheck("C06", triples)
@@ -275,6 +344,15 @@ def run(ctx):
 
 def replay(path):
     d = json.loads(open(path).read())
+    if d.get("evaluator_path"):
+        ref, pred = common.arr_from_json(d["ref"]), common.arr_from_json(d["pred"])
+        print("reference:\n", ref, "\nprediction:\n", pred)
+        bad, r = evaluator_path_problems(ref, pred)
+        print("implementation:", None if r is None else {m: r["metrics"].get(m, {}).get("all") for m in ("DSC", "IOU", "RVD")}, None if r is None else r.get("globals"))
+        for x in bad:
+            print("PROPERTY FAILS ON THE IMPLEMENTATION:", x)
+        print("DIFFER" if bad else "agree")
+        return 1 if bad else 0
     if "large_shape" in d:
         shape = tuple(d["large_shape"]); lo, hi, sh = d["box"]
         ref = np.zeros(shape, np.uint8); pred = np.zeros(shape, np.uint8)
